@@ -131,6 +131,7 @@ class Sample(object):
         self.mass = mass               # cell F19
         self.name = name if name else str(self.formula) # cell F20
         self.activity = {}
+        self._activity_at_removal = {}
 
         # The following are set in calculation_activation
         self.environment = None  # type: "ActivationEnvironment"
@@ -154,18 +155,22 @@ class Sample(object):
         :func:`IAEA1987_isotopic_abundance`.
         """
         self.activity = {}
+        self._activity_at_removal = {}
         self.environment = environment
         self.exposure = exposure
         self.rest_times = rest_times
+        # The activity at removal from the beam (0 hours) is tracked in addition to
+        # the requested rest times so that decay_time() does not depend on them.
+        times = [0] + list(rest_times)
         for el, frac in self.formula.mass_fraction.items():
             if core.isisotope(el):
-                A = activity(el, self.mass*frac, environment, exposure, rest_times)
+                A = activity(el, self.mass*frac, environment, exposure, times)
                 self._accumulate(A)
             else:
                 for iso in el.isotopes:
                     iso_mass = self.mass*frac*abundance(el[iso])*0.01
                     if iso_mass:
-                        A = activity(el[iso], iso_mass, environment, exposure, rest_times)
+                        A = activity(el[iso], iso_mass, environment, exposure, times)
                         self._accumulate(A)
 
     def decay_time(self, target):
@@ -176,23 +181,23 @@ class Sample(object):
         if not self.rest_times or not self.activity:
             return 0
 
-        # Find the small rest time (probably 0 hr)
-        min_rest, To = min(enumerate(self.rest_times), key=lambda x: x[1])
-        # Find the activity at that time, and the decay rate
-        data = [(Ia[min_rest], LN2/a.Thalf_hrs) for a, Ia in self.activity.items()]
+        # Find the activity at removal from the beam, and the decay rate.  Products
+        # with no activity do not contribute, and have no time to reach the target.
+        data = [(Ia, LN2/a.Thalf_hrs) for a, Ia in self._activity_at_removal.items()
+                if Ia > 0]
         # Build functions for total activity at time T - target and its derivative
         # This will be zero when activity is at target
-        f = lambda t: sum(Ia*exp(-La*(t-To)) for Ia, La in data) - target
-        df = lambda t: sum(La*Ia*(To-1)*exp(-La*(t-To)) for Ia, La in data)
-        # Return target time, or 0 if target time is negative
-        if f(0) < target:
+        f = lambda t: sum(Ia*exp(-La*t) for Ia, La in data) - target
+        df = lambda t: sum(-La*Ia*exp(-La*t) for Ia, La in data)
+        # Return 0 if the activity is already at or below the target
+        if f(0) <= 0:
             return 0
         # Need an initial guess near the answer otherwise find_root gets confused.
         # Small but significant activation with an extremely long half-life will
         # dominate at long times, but at short times they will not affect the
         # derivative. Choosing a time that satisfies the longest half-life seems
         # to work well enough.
-        initial = max(-log(target/Ia)/La + To for Ia, La in data)
+        initial = max(-log(target/Ia)/La for Ia, La in data)
         t, ft = find_root(initial, f, df)
         percent_error = 100*abs(ft)/target
         if percent_error > 0.1:
@@ -201,12 +206,15 @@ class Sample(object):
                 "Failed to compute decay time correctly (%.1g error). Please"
                 " report material, mass, flux and exposure.") % percent_error
             raise RuntimeError(msg)
-        return t
+        # The search approaches the target time from below; it is not before removal.
+        return max(t, 0.)
 
     def _accumulate(self, activity):
         for el, activity_el in activity.items():
+            self._activity_at_removal[el] = (
+                self._activity_at_removal.get(el, 0) + activity_el[0])
             el_total = self.activity.get(el, [0]*len(self.rest_times))
-            self.activity[el] = [T+v for T, v in zip(el_total, activity_el)]
+            self.activity[el] = [T+v for T, v in zip(el_total, activity_el[1:])]
 
     def show_table(self, cutoff=0.0001, format="%.4g"):
         """
